@@ -25,3 +25,13 @@ for t in ${BATTERY_TRANSFORMS:-inc dec post ne0 ren flip cnt neq pk}; do
   echo "transform=$t changed:[$changed ] -> $out"
   rm -rf $r
 done
+# realistic behaviour-preserving refactorings written by independent agents (harmless/<id>/patch.diff)
+for pd in harmless/*/patch.diff; do
+  [ -f "$pd" ] || continue
+  id=$(basename $(dirname $pd))
+  r=/tmp/bat_$$_$id; rm -rf $r; mkdir -p $r/repo $r/build; cp -r $REPO_SRC/inc $REPO_SRC/src $r/repo/
+  (cd $r/repo && patch -p1 -s < "$OLDPWD/$pd") || { echo "refactoring=$id patch-failed"; rm -rf $r; continue; }
+  out=$(VERIF_REPO=$r/repo VERIF_BUILD=$r/build python3 tools/gen_check.py "$@" 2>&1 | awk '$2=="ok"||$2=="BROKEN"{print $1"="$2}' | tr '\n' ' ')
+  echo "refactoring=$id files:[ $(grep '^+++ ' $pd | sed 's#.*/##' | tr '\n' ' ')] -> $out"
+  rm -rf $r
+done
